@@ -294,7 +294,7 @@ pub fn check(c: &Case) -> Verdict {
 pub fn run(ctx: &Ctx) {
     ctx.set_rule("fault enumeration: keygen with parameter lists of length 0..10; key blobs of every length 0..64 (+ longer) through hbs_lms::sign, SigningKey::try_sign, try_sign_with_aux and get_lifetime; all 256 values of every parameter byte of a valid key (values that decode to a valid affordable list are executed and checked for correctness, H>=10 decodings are only parsed); counters at and beyond the end of life; random counter/parameter areas; aux buffers of every length 0..40 x first byte {0, 1, 0x80, 0xff}, every single-bit corruption and random values of the level word of a valid buffer, every truncation length - for keygen and sign. Oracle: no panic; Err => zero callback calls, nothing released; Ok => signature verifies under the model public key of the decoded parameters, callback got the model successor, keygen result equals the model's. Non-trivial = every case (none is a library-produced input); distinct by serialized case.");
     ctx.assume("parameter bytes decoding to trees of height >= 10 are excluded by cost from execution (counted as excluded-by-cost), only SigningKey::from_bytes is exercised on them");
-    let hashes: Vec<HashId> = if ctx.quick() { vec![HashId::Sha256_256, HashId::Shake256_192] } else { ALL_HASHES.to_vec() };
+    let hashes: Vec<HashId> = if ctx.quick() { vec![HashId::Sha256_256, HashId::Shake256_192, HashId::Sha256_128] } else { ALL_HASHES.to_vec() };
     let mut items: Vec<Case> = Vec::new();
     for h in &hashes {
         for l in 0..=10u8 {
@@ -335,7 +335,7 @@ pub fn run(ctx: &Ctx) {
     }
     ctx.enumerate("enumerated_faults", items.len() as u64, true, |i| items[i as usize].clone(), check);
 
-    let cases = ctx.tier.pick(4_000u32, 100_000u32);
+    let cases = ctx.tier.pick(10_000u32, 150_000u32);
     ctx.random(
         "random_faults",
         &|| {
